@@ -99,6 +99,7 @@ func vh_C01_front_discovery_Q() {
 		hidden[k] = symxBool("hidden" + vhD(k))
 	}
 	betaIsController := symxBool("betaEmbeds")
+	hiddenWithValue := symxBool("hidden0.withValue") // @Hidden(internal) hides like a bare @Hidden
 	fr, err := visitors.VhLoadSource(vhFrontDiscoverySrc, func(f *ast.File) {
 		for k, m := range methods {
 			if !annotated[k] {
@@ -107,6 +108,8 @@ func vh_C01_front_discovery_Q() {
 			}
 			if !hidden[k] {
 				vhPatchDoc(f, m, "// @Hidden", "// visible")
+			} else if k == 0 && hiddenWithValue {
+				vhPatchDoc(f, m, "// @Hidden", "// @Hidden(internal)")
 			}
 		}
 		if !betaIsController {
@@ -1915,5 +1918,58 @@ func (c *Ctl) Op(b B) (` + use + `, error) {
 		if ok {
 			symxAssert(vhSameView(vhView30(doc30.Components.Schemas[n]), vhView31(p31)), "C07.front.graphs.component-agrees-in-both-documents")
 		}
+	}
+}
+
+// C18 through the front end: a method that (wrongly) carries two @Route annotations with different URL parameters -
+// whatever route the linker goes by, a diagnostic about a URL parameter covers that parameter's own {name} text
+func vh_C18_front_two_routes_Q() {
+	first := []string{"/a/{id}", "/a/{id}/{more}", "/a"}[symxChoice("first", 3)]
+	second := []string{"/b/{name}", "/b/{id}", "/b"}[symxChoice("second", 3)]
+	src := `package ctl
+
+import "github.com/gopher-fleece/runtime"
+
+// @Tag(T)
+// @Route(/c)
+type Ctl struct {
+	runtime.GleeceController
+}
+
+// @Method(GET)
+// @Route(` + first + `)
+// @Route(` + second + `)
+func (c *Ctl) Op() error { return nil }
+`
+	fr, err := visitors.VhLoadSource(src, nil)
+	symxAssert(err == nil, "C18.front.fixture-loads")
+	if err != nil {
+		return
+	}
+	p := pipeline.VhNewPipeline(fr, vhFrontConfig())
+	if p.GenerateGraph() != nil {
+		return
+	}
+	tree, err := p.Validate()
+	symxAssert(err == nil, "C18.front.validation-runs")
+	if err != nil {
+		return
+	}
+	lines := strings.Split(src, "\n")
+	symxCover("C18.front.two-routes.validated")
+	for _, d := range vhFlattenDiags(tree) {
+		if diagnostics.DiagnosticCode(d.Code) != diagnostics.DiagLinkerRouteMissingPath {
+			continue
+		}
+		symxCover("C18.front.two-routes.url-parameter-diagnostic")
+		r := d.Range
+		inside := r.StartLine >= 0 && r.EndLine < len(lines) && r.StartLine == r.EndLine && r.StartCol >= 0 && r.StartCol <= r.EndCol && r.EndCol <= len([]rune(lines[r.EndLine]))
+		symxAssert(inside, "C18.front.range-lies-inside-the-file")
+		if !inside {
+			continue
+		}
+		covered := string([]rune(lines[r.StartLine])[r.StartCol:r.EndCol])
+		ok := len(covered) > 2 && covered[0] == '{' && covered[len(covered)-1] == '}' && strings.Contains(d.Message, "'"+covered[1:len(covered)-1]+"'")
+		symxAssert(ok, "C18.front.url-parameter-diagnostic-covers-the-parameter-it-names")
 	}
 }
